@@ -190,8 +190,8 @@ void DiscoveryAgent::SendDiscovery() {
     range->attempt++;
   }
 
-  if (range->failures == MAX_BRANCH_FAILURES ||
-      range->attempt == MAX_EMPTY_BRANCH_ATTEMPTS ||
+  if (range->failures >= MAX_BRANCH_FAILURES ||
+      range->attempt >= MAX_EMPTY_BRANCH_ATTEMPTS ||
       range->branch_corrupt) {
     // limit reached, move on to the next branch
     OLA_DEBUG << "Hit failure limit for (" << range->lower << ", "
